@@ -9,6 +9,12 @@
      c.filename), first argument = file name, compression lzf / gzip incl. overwriting in place;
      colfileobj_to_hdf(name=None) for cf.filename None / relative / absolute, read back with
      colfile_from_hdf(file) (finding C18-colfileobj-default-name-nested, see hdf_default_names)
+   * value kinds: the python TYPE that carries a parameter value (python float / int / str, numpy float64 /
+     float32 / int64 / int32 / str_ scalars, 0-d arrays, results of numpy arithmetic; bool excluded) x every
+     route that stores parameters (header of a text columnfile, .par file, sparse meta attributes, names and
+     peak counts of grains in text and hdf).  Expectation: the documented type of the route (text: exactly
+     python int / float / str) and the value handed in (a float32 comes back as the float whose float32 is
+     the value written)
 Every family counts its cases in chk.notes["extra_families"]."""
 import os, math, random
 from fractions import Fraction
@@ -251,8 +257,149 @@ def hdf_default_names(chk, scratch, seed, probs):
             probs.append(nested[0])
 
 
+def value_kinds(chk, scratch, seed, probs):
+    from ImageD11 import columnfile, parameters, grain, sparseframe
+    import h5py
+    import c18_replay as R
+    rng = random.Random(seed * 15485863 + 18)
+    floats = [0.2845666913016934, 152736.55305695778, -0.0, 0.0, 1e-12, -1e12, 1.0 / 3.0, 0.5, 12345.67891, 3.0,
+              float(np.radians(0.0625)), rng.uniform(-1, 1) * 10.0 ** rng.uniform(-12, 12)]
+    ints = [0, 1, -7, 2048, 2 ** 31 - 1, -2 ** 31, 10 ** 12, rng.randrange(-10 ** 9, 10 ** 9)]
+    strs = ["CeO2", "P21/c", "a=b", "x1y2"]
+    i32 = lambda v: np.int32(v) if -2 ** 31 <= v < 2 ** 31 else np.int64(v)
+    kinds = [("python", float, int, str),
+             ("numpy float64 / int64 / str_", np.float64, np.int64, np.str_),
+             ("numpy float32 / int32 / str_", np.float32, i32, np.str_),
+             ("0-d arrays", lambda v: np.array(v, np.float64), lambda v: np.array(v, np.int64), np.str_),
+             ("0-d float32 / int32 arrays", lambda v: np.array(v, np.float32), lambda v: np.array(i32(v)), np.str_),
+             ("numpy arithmetic", lambda v: np.mean(np.array([v, v])), lambda v: np.array([v, 0]).sum(), lambda v: np.str_(v[:1]) + v[1:])]
+
+    def same(w, got, exact_type):
+        """w: the value handed to the writer; got: what came back"""
+        if isinstance(w, np.ndarray):
+            w = w[()]
+        if isinstance(got, np.ndarray) and got.ndim == 0 and not exact_type:
+            got = got[()]
+        if isinstance(w, str):
+            return (type(got) is str if exact_type else isinstance(got, str)) and str(got) == str(w)
+        if isinstance(w, (int, np.integer)):
+            if isinstance(got, (bool, np.bool_)) or not (type(got) is int if exact_type else isinstance(got, (int, np.integer))):
+                return False
+            return int(got) == int(w)
+        if not (type(got) is float if exact_type else isinstance(got, (float, np.floating))):
+            return False
+        back = type(w)(got) if isinstance(w, np.floating) else float(got)       # float32: to the precision handed in
+        return back == w and math.copysign(1.0, float(back)) == math.copysign(1.0, float(w))
+
+    def report(route, kname, n, w, got):
+        probs.append(("value kind %s, %s: %s handed in as %r (%s) came back as %r (%s)" % (
+            kname, route, n, w, type(w).__name__, got, type(got).__name__),
+            {"extra": "value-kinds", "route": route, "kind": kname}))
+
+    for ki, (kname, F, I, S) in enumerate(kinds):
+        d = {}
+        for j, v in enumerate(floats):
+            d["f%d" % j] = F(v)
+        for j, v in enumerate(ints):
+            d["i%d" % j] = I(v)
+        for j, v in enumerate(strs):
+            d["s%d" % j] = S(v)
+        # ---- header of a text columnfile (parameters.set and a parameters object), two cycles
+        cf = columnfile.colfile_from_dict({"sc": np.array([1.0, 2.0]), "fc": np.array([3.0, 4.0])})
+        for n, v in d.items():
+            cf.parameters.set(n, v)
+        fp = os.path.join(scratch, "kinds_%d.flt" % ki)
+        cf.writefile(fp)
+        c2 = columnfile.columnfile(fp)
+        c2.writefile(fp)
+        c3 = columnfile.columnfile(fp)
+        # ---- .par file
+        pp = os.path.join(scratch, "kinds_%d.par" % ki)
+        parameters.parameters(**d).saveparameters(pp)
+        q = parameters.read_par_file(pp)
+        q2 = parameters.parameters()
+        q2.loadparameters(pp)
+        for route, back in (("text columnfile header", c2.parameters.parameters), ("text columnfile header, second cycle", c3.parameters.parameters),
+                            (".par file (read_par_file)", q.parameters), (".par file (loadparameters)", q2.parameters)):
+            _note(chk, "value kinds")
+            chk.case(("extra-value-kinds", ki, route))
+            chk.traces += 1
+            for n, w in d.items():
+                chk.evaluations += 1
+                if n not in back or not same(w, back[n], True):
+                    report(route, kname, n, w, back.get(n, "<missing>"))
+                    break
+        # ---- sparse frame meta attributes (numbers; strings as python str: h5py stores no numpy.str_)
+        meta = {n: (str(v) if isinstance(v, str) else v) for n, v in d.items()}
+        spf = sparseframe.sparse_frame(np.array([0, 1]), np.array([2, 3]), (4, 5))
+        spf.set_pixels("intensity", np.array([1.5, 2.5]), meta)
+        hp = os.path.join(scratch, "kinds_%d.h5" % ki)
+        if os.path.exists(hp):
+            os.unlink(hp)
+        _note(chk, "value kinds")
+        chk.case(("extra-value-kinds", ki, "sparse meta"))
+        chk.traces += 1
+        try:
+            with h5py.File(hp, "a") as h:
+                spf.to_hdf_group(h.require_group("f"))
+            with h5py.File(hp, "r") as h:
+                back = dict(sparseframe.from_hdf_group(h["f"]).meta["intensity"])
+            for n, w in meta.items():
+                chk.evaluations += 1
+                if n not in back or not same(w, R._dec(back[n]), False):
+                    report("sparse_frame meta attributes", kname, n, w, back.get(n, "<missing>"))
+                    break
+        except Exception as e:
+            probs.append(("value kind %s: sparse_frame.to_hdf_group / from_hdf_group raised %s: %s" % (kname, type(e).__name__, e),
+                          {"extra": "value-kinds", "route": "sparse meta", "kind": kname}))
+        # ---- grains: names and peak counts in text and hdf (hdf names as python str, see below)
+        gl = []
+        for j in range(3):
+            g = grain.grain(np.eye(3) * (3.0 + j), translation=[1.0, 2.0, 3.0 + j])
+            g.name = S("g%d:%s" % (j, strs[j]))
+            g.npks = I(ints[(j + 3) % len(ints)] % 100000)
+            g.nuniq = I(ints[(j + 1) % len(ints)] % 1000)
+            gl.append(g)
+        tp = os.path.join(scratch, "kinds_%d.map" % ki)
+        grain.write_grain_file(tp, gl)
+        rt = grain.read_grain_file(tp)
+        for g in gl:
+            g.hname = g.name
+            g.name = str(g.name)
+        grain.write_grain_file_h5(hp, gl, group_name="grains")
+        rh = grain.read_grain_file_h5(hp, group_name="grains")
+        for route, back in (("text grain file", rt), ("hdf grain file", rh)):
+            _note(chk, "value kinds")
+            chk.case(("extra-value-kinds", ki, route))
+            chk.traces += 1
+            for j, g in enumerate(gl):
+                b = back[j] if j < len(back) else None
+                for attr in ("name", "npks", "nuniq"):
+                    w, got = getattr(g, attr), getattr(b, attr, None)
+                    chk.evaluations += 1
+                    ok = got is not None and ((str(got).strip() == str(w)) if attr == "name" else int(R._dec(got)) == int(w))
+                    if not ok:
+                        report(route, kname, "grain %d %s" % (j, attr), w, got)
+        # not judged: numpy.str_ handed to h5py (no conversion path): the grain writer swallows the TypeError
+        if S is not str:
+            hq = os.path.join(scratch, "kinds_%d_s.h5" % ki)
+            if os.path.exists(hq):
+                os.unlink(hq)
+            for g in gl:
+                g.name = g.hname
+            try:
+                grain.write_grain_file_h5(hq, gl)
+                if any(not hasattr(b, "name") for b in grain.read_grain_file_h5(hq)):
+                    _obs(chk, "grain.to_h5py_group: a name / intensity_info that is a numpy.str_ is silently not stored (h5py has no "
+                              "conversion for it, the TypeError is swallowed at grain.py:262); sparse meta attributes of that "
+                              "type raise TypeError in h5py; python str is the domain of the hdf routes, not judged")
+            except Exception as e:
+                _obs(chk, "write_grain_file_h5 with numpy.str_ names raises %s (not judged)" % type(e).__name__)
+
+
 def run_extra(chk, scratch, seed):
     probs = list(run_extra_pars_grains(chk, scratch, seed))
+    value_kinds(chk, scratch, seed, probs)
     text_edits(chk, scratch, seed, probs)
     hdf_default_names(chk, scratch, seed, probs)        # (last: may end with the recorded / pending finding)
     # one VIOLATION per class (family, kind of edit / call): the first instance is the reproducer
